@@ -44,6 +44,7 @@ P = {
  'C10': dict(families=[('capacity', 200, 3000, 120), ('mixed', 60, 1000, 120)], aspects='RSA', profiles=['debug', 'release'],
              theorems=['C10_with_capacity', 'C10_reserve', 'C10_reserved_inserts', 'C10_try_reserve_err', 'C10_reserve_panic', 'C10_never_silent', 'C10_shrink']),
  'C12': dict(families=[('entry', 200, 3000, 120), ('mixed', 60, 1000, 120), ('entryd6', 60, 600, 120)], aspects='RSD', profiles=['debug', 'release'],
+             asan=[('entry', 200, 3000, 120)],
              theorems=['C12_occupied_iff_present', 'C12_step_acts_on_designated_element', 'C12_inserting_call_handle_in_main', 'C12_entry_chain_refines',
                        'C12_raw_entry_chain_refines', 'C12_raw_entry_readonly', 'C12_replace_none_then_insert_one_element', 'C12_no_panic_outside_D6', 'C12_D6_refuted_witness']),
  'C17': dict(families=[('capacity', 200, 3000, 120), ('mixed', 150, 2500, 120), ('entry', 60, 1000, 120), ('iter', 60, 1000, 120)], aspects='RSDA', profiles=['debug', 'release'],
@@ -56,6 +57,7 @@ P = {
  'C13': dict(families=[('set', 120, 1500, 120), ('zst', 40, 400, 150)], aspects='RSD', profiles=['debug', 'release'],
              theorems=['C13_element_ops_refine', 'C13_algebra', 'C13_predicates', 'C13_iter_each_once']),
  'C07': dict(families=[('fuse', 300, 4000, 120)], aspects='RSDKA', profiles=['debug', 'release'],
+             asan=[('fuse', 200, 3000, 120)],
              theorems=['C07_invariant_survives', 'C07_later_calls_behave_normally', 'C07_self_consistent', 'C07_insert_loses_nothing_else', 'C07_reserve_only_loses',
                        'C07_clone_source_untouched', 'C07_clone_from_interrupted', 'C07_entry_step_keeps_invariant']),
  'C15': dict(families=[('par', 150, 2000, 120), ('parset', 80, 1000, 120)], aspects='RSD', profiles=['debug', 'release'],
@@ -64,6 +66,7 @@ P = {
  'C16': dict(families=[('ser', 120, 1500, 120), ('serset', 120, 1500, 120)], aspects='RSD', profiles=['debug', 'release'],
              theorems=['C16_serialize_exact_len_each_once', 'C16_deserialize_collects', 'C16_roundtrip', 'C16_roundtrip_any_phase', 'C16_in_place_replaces_entirely']),
  'C05': dict(families=[('mixed', 120, 2000, 120), ('entry', 80, 1500, 120), ('iter', 80, 1500, 120), ('zst', 40, 400, 150)], aspects='RS', profiles=['debug', 'release'],
+             asan=[('mixed', 100, 1500, 120), ('entry', 100, 1500, 120), ('iter', 60, 800, 120), ('zst', 30, 300, 150)],
              theorems=['C05_no_fault', 'C05_cursor_agrees']),
 }
 
@@ -143,6 +146,44 @@ def build_tools(profiles):
         if code != 0:
             return False, f'harness build ({p}) against /repo failed:\n' + out[-1500:]
     return True, ''
+
+ASAN_TARGET = os.path.join(CACHE, 'target-asan')
+ASAN_EXE = os.path.join(ASAN_TARGET, 'x86_64-unknown-linux-gnu', 'debug', 'gharness')
+
+def build_asan():
+    """the harness and the crate under AddressSanitizer (nightly toolchain, offline): supporting
+    evidence for the memory-safety side of C05/C07/C12 - a use after free or an out-of-bounds access
+    of the real crate aborts the run with a report even where it would not crash by itself"""
+    env = dict(ENV, CARGO_TARGET_DIR=ASAN_TARGET, RUSTFLAGS='--cfg griddle_verif -Zsanitizer=address')
+    code, out = sh('cd harness && timeout 1500 cargo +nightly build --offline --features par,ser --target x86_64-unknown-linux-gnu 2>&1', timeout=1600, env=env)
+    return code == 0, out[-1200:]
+
+def run_asan(prop, fam, nh, maxops, seed, rundir):
+    base = os.path.join(rundir, f'{fam}.asan')
+    res = dict(family=fam, profile='asan', histories=nh, seed=seed, trace=base + '.trace', maxops=maxops, diffs=[], viol=[], ops=0, stats={})
+    env = dict(ENV, ASAN_OPTIONS='detect_leaks=0:abort_on_error=0:halt_on_error=1')
+    try:
+        code, out = sh([ASAN_EXE, '--seed', str(seed), '--histories', str(nh), '--family', fam, '--maxops', str(maxops),
+                        '--out', base + '.trace', '--stats', base + '.json', '--progress', base + '.progress'], timeout=600, env=env)
+    except subprocess.TimeoutExpired:
+        code, out = -9, 'no result after 600s (hang)'
+    res['harness_exit'] = code
+    if code != 0:
+        m = re.search(r'ERROR: AddressSanitizer: [^\n]*', out)
+        res['harness_out'] = (m.group(0) + ' ... ' if m else '') + out[-300:]
+        res['crashed'] = True
+        try:
+            res['crashed_in'] = open(base + '.progress').read().strip()
+        except Exception:
+            res['crashed_in'] = None
+        return res
+    try:
+        res['stats'] = json.load(open(base + '.json'))
+        res['ops'] = sum(v for k, v in res['stats'].get('stats', {}).items() if k.startswith('op:'))
+        res['viol'] = [v for v in res['stats'].get('violations', []) if v['property'] == prop]
+    except Exception as e:
+        res.update(crashed=True, crashed_in=None, harness_out='unreadable statistics file under ASan: %s' % e)
+    return res
 
 def run_family(prop, fam, nh, maxops, seed, profile, aspects, rundir, tag='', budget_s=None):
     exe = os.path.join(TARGET, 'release' if profile == 'release' else 'debug', 'gharness')
@@ -268,6 +309,15 @@ def main():
     known_lines = []
     kf = [k for k in known_findings() if k['property'] == prop]
 
+    def is_known(text):
+        for k in kf:
+            if k['cls'] in text:
+                return k
+        return None
+
+    def alarming(r):
+        return bool(r.get('crashed')) or any(not is_known(v['what']) for v in r['viol'])
+
     # 1. proofs
     okb, log = coq_build()
     if not okb:
@@ -296,10 +346,19 @@ def main():
                 maxops = cfg.get('big_thorough', maxops)
             for profile in cfg['profiles']:
                 runs.append(run_family(prop, fam, nh, maxops, seed, profile, cfg['aspects'], rundir))
-                if runs[-1].get('crashed') or runs[-1]['viol']:
+                if alarming(runs[-1]):
                     break
-            if runs and (runs[-1].get('crashed') or runs[-1]['viol']):
+            if runs and alarming(runs[-1]):
                 break
+    if cfg.get('asan') and okt and not (runs and alarming(runs[-1])):
+        oka, msga = build_asan()
+        if not oka:
+            problems.append('AddressSanitizer build of the harness failed: ' + msga)
+        else:
+            for (fam, nq, nt, maxops) in cfg['asan']:
+                runs.append(run_asan(prop, fam, nq if tier == 'quick' else nt, maxops, seed, rundir))
+                if alarming(runs[-1]):
+                    break
     if cfg.get('cross_profile') and okt:
         # C17: the same seeded histories, run by the two binaries, must give the same transcript
         for ra in runs:
@@ -330,12 +389,6 @@ def main():
                     break
             if viols:
                 break
-
-    def is_known(text):
-        for k in kf:
-            if k['cls'] in text:
-                return k
-        return None
 
     for (r, v) in viols:
         k = is_known(v['what'])
